@@ -617,6 +617,20 @@ def run (s : State) : List Op → Option State
     | some s' => run s' ops
     | none => none
 
+/-- `Commit(true)` followed by `state.New` at the committed roots on the same database: the new StateDB sees
+exactly what the tries hold; live objects (deleted ones included), logs, preimages, journals, revision lists and
+the id counter are gone.  NOT an `Op`: the theorems quantify over states reachable from a fresh StateDB; the
+driver uses this to continue a case on a reopened StateDB (objects then have a non-trivial trie/origin layer),
+which is covered by correspondence and by the implementation-level oracle only. -/
+def reopen (s : State) : State :=
+  let s1 := intermediateRoot true s
+  { a := { objs := fun a => (s1.a.trie a).map fun l =>
+             { nonce := l.nonce, balance := l.balance, code := l.code, storage := l.storage, committed := l.storage,
+               trieStorage := l.storage, dlgBalance := l.dlgBalance, dlgs := l.dlgs }
+           trie := s1.a.trie }
+    v := { vals := s1.v.trieVals, index := s1.v.trieIndex, stat := s1.v.trieStat, queue := s1.v.trieQueue,
+           trieVals := s1.v.trieVals, trieIndex := s1.v.trieIndex, trieStat := s1.v.trieStat, trieQueue := s1.v.trieQueue } }
+
 /-- ids of the snapshots that may be reverted to -/
 def State.liveIds (s : State) : List Nat := s.revs.map (·.1)
 
